@@ -93,6 +93,8 @@ CHECKS = {
    ref="DESIGN.md 7 C12"),
  "C13": dict(
    text="Theorems (closed): C13_gen_relocate - laying a stored pattern out d pcs further = adjust() on every stored instruction (subroutine ids move with call targets, no aliasing); "
+        "C13_relocation_preserves_meaning - the relocated pattern has exactly the outcomes it had (the subroutine table moving with it); C13_loop_ids_irrelevant - patterns of the same shape, "
+        "differing only in (random) loop ids, mean the same; "
         "C13_transparent_inline / C13_transparent_call - {B}=s in place and a call of s mean B in the specification, so by C01 all forms give the same matches; C13_run_concat - a "
         "multi-command result is the concatenation of its commands' results. Tie: written-out vs inline+calls vs set..to pattern sources must agree on the implementation; per-command "
         "runs vs whole run; compile-twice/run-twice histories; bytecode unchanged by running.",
